@@ -8,6 +8,7 @@ package c08
 import (
 	"bufio"
 	"bytes"
+	"errors"
 	"fmt"
 	"math/big"
 	"math/rand"
@@ -343,6 +344,23 @@ func pair(g *core.G, weighted bool, forceKind int) (*core.N, *core.N) {
 	return r, c
 }
 
+// rootedCopy returns a copy of n (root of degree >= 3) rooted in the middle of one of the internal
+// branches at its root, or nil when there is none.
+func rootedCopy(n *core.N) *core.N {
+	c := n.Clone()
+	if len(c.Kids) < 3 {
+		return nil
+	}
+	for i, k := range c.Kids {
+		if len(k.Kids) >= 2 {
+			rest := &core.N{E: core.NewE()}
+			rest.Kids = append(append([]*core.N(nil), c.Kids[:i]...), c.Kids[i+1:]...)
+			return &core.N{Kids: []*core.N{k, rest}}
+		}
+	}
+	return nil
+}
+
 // ---------------------------------------------------------------------------
 // running the real code
 
@@ -404,14 +422,41 @@ func feed(rn *core.N, c *tree.Tree) (<-chan tree.Trees, int) {
 	if workers <= 1 && !decoys {
 		return one(c), 1
 	}
-	ch := make(chan tree.Trees, 4)
+	ch := make(chan tree.Trees, 5)
 	ch <- tree.Trees{Tree: build(rn), Id: 101}
+	// an item that already carries the error of the reader (and no tree): `inerr = treeV.Err`
+	ch <- tree.Trees{Tree: nil, Id: errItemId, Err: errors.New("reader error")}
 	ch <- tree.Trees{Tree: c, Id: recordId}
 	ch <- tree.Trees{Tree: build(rn), Id: 102}
 	ch <- tree.Trees{Tree: build(rn), Id: 103}
 	close(ch)
-	return ch, 4
+	return ch, 5
 }
+
+// id of the item of the channel that carries an error instead of a tree: its record must carry
+// that error (model: compareItem / compareWeightedItem on Item.readErr)
+const errItemId = 104
+
+// stale leaves t with a tip index and bitsets computed for OTHER names: two tips exchange their
+// names, the tree is indexed, the names are put back.  A comparison must re-index the trees it is
+// given (ReinitIndexes), so the result must be the one of a freshly built tree.
+func stale(t *tree.Tree) {
+	tips := t.Tips()
+	if len(tips) < 2 {
+		return
+	}
+	a, b := tips[0], tips[len(tips)-1]
+	na, nb := a.Name(), b.Name()
+	a.SetName(nb)
+	b.SetName(na)
+	t.ReinitIndexes()
+	a.SetName(na)
+	b.SetName(nb)
+}
+
+// history: the next comparison is the second use of its trees — both were indexed under other
+// names before (stale), and the reference has already served in a comparison with another tree
+var history = false
 
 // collect checks the bookkeeping of the records and returns the one of the compared tree.
 // inProperty: root of degree >= 3 and no single-child node (the trees of the property; a
@@ -442,6 +487,10 @@ func collect(strict bool, n int, ids []int, errs []error, same []bool, recs []st
 		seen[id]++
 		if id == recordId {
 			out = recs[i]
+		} else if id == errItemId {
+			if errs[i] == nil {
+				return "panic:" + core.Escape("the item of the channel carrying an error got a record without Err")
+			}
 		} else if strict && (errs[i] != nil || !same[i]) {
 			return "panic:" + core.Escape(fmt.Sprintf("decoy %d (the reference itself) not reported identical", id))
 		}
@@ -456,6 +505,14 @@ func runCompare(rn, cn *core.N, tips, sc bool) string {
 	r, c := build(rn), build(cn)
 	out := "none"
 	if p, msg := core.Safe(func() {
+		if history {
+			stale(r)
+			stale(c)
+			if first, err := tree.Compare(r, one(build(cn)), !tips, !sc, 1); err == nil {
+				for range first {
+				}
+			}
+		}
 		ch, n := feed(rn, c)
 		stats, err := tree.Compare(r, ch, tips, sc, workers)
 		if err != nil {
@@ -488,6 +545,14 @@ func runWeighted(rn, cn *core.N, tips, sc bool) string {
 	r, c := build(rn), build(cn)
 	out := "none"
 	if p, msg := core.Safe(func() {
+		if history {
+			stale(r)
+			stale(c)
+			if first, err := tree.CompareWeighted(r, one(build(cn)), !tips, !sc, 1); err == nil {
+				for range first {
+				}
+			}
+		}
 		ch, n := feed(rn, c)
 		stats, err := tree.CompareWeighted(r, ch, tips, sc, workers)
 		if err != nil {
@@ -529,9 +594,21 @@ func b01(b bool) string {
 }
 
 func doCmp(c *core.Ctx, weighted, tips, sc bool, rn, cn *core.N) {
+	if weighted && c.G.Chance(0.2) {
+		// negative branch lengths (distance methods produce them): a length is absent only
+		// when it is the marker -1 itself
+		for _, n := range []*core.N{rn, cn} {
+			for _, s := range slots(n) {
+				if s.node.E.Len > 0 && s.node.E.Len != 1 && c.G.Chance(0.3) {
+					s.node.E.Len = -s.node.E.Len
+				}
+			}
+		}
+	}
 	r2, c2 := rerooted(c.G, rn), rerooted(c.G, cn)
-	workers = []int{1, 1, 2, 4, 16}[c.G.Intn(5)]
-	decoys = weighted // one worker: decoys only where records hold slices (CompareWeighted)
+	// 0 and -3: `if cpus < 1 { cpus = 1 }` (model workersOf)
+	workers = []int{1, 1, 2, 4, 16, 0, -3, 1}[c.G.Intn(8)]
+	decoys = weighted || c.G.Chance(0.3) // one worker: one goroutine handles all the items in turn
 	emitCmp(c, weighted, tips, sc, rn, cn, r2, c2)
 }
 
@@ -545,8 +622,13 @@ func emitCmp(c *core.Ctx, weighted, tips, sc bool, rn, cn, r2, c2 *core.N) {
 	if !begin(c, op, b01(tips), b01(sc), rn.Dump(), cn.Dump(), r2.Dump(), c2.Dump(), strconv.Itoa(workers)) {
 		return
 	}
-	emit(c, op, b01(tips), b01(sc), rn.Dump(), cn.Dump(), r2.Dump(), c2.Dump(),
-		f(rn, cn, tips, sc), f(cn, rn, tips, sc), f(r2, c2, tips, sc), strconv.Itoa(workers))
+	o1, o2 := f(rn, cn, tips, sc), f(cn, rn, tips, sc)
+	// the third run (re-rooted, rotated copies) is also the one with a history: its trees were
+	// indexed under other names before and its reference has already been compared once
+	history = true
+	o3 := f(r2, c2, tips, sc)
+	history = false
+	emit(c, op, b01(tips), b01(sc), rn.Dump(), cn.Dump(), r2.Dump(), c2.Dump(), o1, o2, o3, strconv.Itoa(workers))
 }
 
 func doCommon(c *core.Ctx, tips bool, an, bn *core.N) {
@@ -602,7 +684,23 @@ func doTipIdx(c *core.Ctx, an, bn *core.N) {
 	emit(c, "C08.tipidx", an.Dump(), bn.Dump(), out)
 }
 
-var cliModes = []string{"plain", "rf", "binary", "weighted", "wbinary"}
+// the last three combine --rf with the other flags: the documented priority is
+// --binary (with or without --weighted) > --weighted > --rf (model: Flags / libCall / rowEvent)
+// "nocompared": no -c at all (`intree2file == "none"`: the command must fail before reading anything)
+var cliModes = []string{"plain", "rf", "binary", "weighted", "wbinary", "rf+binary", "rf+weighted", "rf+wbinary", "nocompared"}
+
+// effMode is the mode the documentation gives for a combination of flags
+func effMode(mode string) string {
+	switch mode {
+	case "rf+binary":
+		return "binary"
+	case "rf+weighted":
+		return "weighted"
+	case "rf+wbinary":
+		return "wbinary"
+	}
+	return mode
+}
 
 func doCLI(c *core.Ctx, mode string, tips bool, rn *core.N, cns []*core.N) {
 	if !begin(c, "C08.cli", mode, b01(tips), rn.Dump(), core.Dumps(cns)) {
@@ -618,6 +716,9 @@ func doCLI(c *core.Ctx, mode string, tips bool, rn *core.N, cns []*core.N) {
 	// option handling: the reference comes from a file, or (modes rf / wbinary) from the
 	// standard input, which is the default of -i; --tips by its long or short name
 	args := []string{"compare", "trees", "-c", comp, "-t", "1"}
+	if mode == "nocompared" {
+		args = []string{"compare", "trees", "-t", "1"}
+	}
 	stdin := ""
 	if mode == "rf" || mode == "wbinary" {
 		stdin = build(rn).Newick() + "\n"
@@ -640,8 +741,16 @@ func doCLI(c *core.Ctx, mode string, tips bool, rn *core.N, cns []*core.N) {
 		args = append(args, "--weighted")
 	case "wbinary":
 		args = append(args, "--weighted", "--binary")
+	case "rf+binary":
+		args = append(args, "--binary", "--rf")
+	case "rf+weighted":
+		args = append(args, "--rf", "--weighted")
+	case "rf+wbinary":
+		args = append(args, "--rf", "--binary", "--weighted")
 	}
 	res := c.RunCLI(stdin, 20*time.Second, args...)
+	fullMode := mode
+	mode = effMode(mode)
 	outcome := "ok"
 	if res.Timeout {
 		outcome = "timeout"
@@ -686,7 +795,8 @@ func doCLI(c *core.Ctx, mode string, tips bool, rn *core.N, cns []*core.N) {
 		rows.WriteString(strings.Join(f, ";"))
 		rows.WriteByte('|')
 	}
-	emit(c, "C08.cli", mode, b01(tips), rn.Dump(), core.Dumps(cns), outcome, rows.String())
+	// the text written on the standard output, as it is (tied to the model's cliOutput)
+	emit(c, "C08.cli", fullMode, b01(tips), rn.Dump(), core.Dumps(cns), outcome, rows.String(), core.Escape(res.Stdout))
 }
 
 // `gotree compare edges -i ref -c comp`: one row per branch of the reference (brid, terminal,
@@ -856,7 +966,7 @@ func emit(c *core.Ctx, op string, fields ...string) {
 	}
 }
 
-var nOutputs = map[string]int{"C08.cmp": 3, "C08.wcmp": 3, "C08.common": 1, "C08.tipidx": 1, "C08.cli": 2, "C08.cliedges": 2, "C08.clitips": 2}
+var nOutputs = map[string]int{"C08.cmp": 3, "C08.wcmp": 3, "C08.common": 1, "C08.tipidx": 1, "C08.cli": 3, "C08.cliedges": 2, "C08.clitips": 2}
 
 func parent(c *core.Ctx) {
 	done := 0
@@ -973,6 +1083,14 @@ func Run(c *core.Ctx) {
 		switch i % 8 {
 		case 0, 1, 2, 3:
 			rn, cn := pair(g, false, -1)
+			if g.Chance(0.05) {
+				// tie only: an unrooted tree against a ROOTED presentation of the same tree (a root of
+				// degree 2 on one of its internal branches): that branch is counted twice on one side,
+				// the difference `total - common` goes negative (model branch model-negative-count)
+				if rc := rootedCopy(rn); rc != nil {
+					cn = rc
+				}
+			}
 			doCmp(c, false, tips, sc, rn, cn)
 		case 4, 5:
 			rn, cn := pair(g, true, -1)
